@@ -2,6 +2,11 @@
    as a function of the text to the left (reversed: nearest rune first) and to the right of a position. *)
 From TV Require Export Model.SegClasses.
 
+(* what the tables guarantee about one rune and the rules rely on (checked on every rune of every driver
+   case; for all code points it is a table fact of C20): U+200D is the ZWJ class, U+000A the LF class *)
+Definition obs_wf_l (o : obs) : bool :=
+  Bool.eqb (o_zwjtab o) (lbc_beq (o_lb o) LB_ZWJ) && Bool.eqb (o_lf o) (lbc_beq (o_lb o) LB_LF).
+
 Inductive lbr := Mandatory | Allowed | Prohibited.    (* !  ÷  × *)
 
 (* LB1: resolve AI, SG, XX -> AL; SA -> CM if Mn/Mc else AL; CJ -> NS *)
